@@ -13,6 +13,12 @@ are bounded by |x| + |P|.  Measured max err/tol on the unchanged tree (quick see
 force 0.033, moment 0.071, power 0.031, grid integral vs marker total 0.029, grid integral + body force 0.029,
 apply_forces 0 (exact).
 
+Workload diversity (added after the seeded-change campaign): ``transfer_forcing_from_grid_to_body`` is called alternately
+with keyword and positional arguments; every body also gets a float32 marker-force field (tolerance 64 * eps32 * sum|terms|,
+the precision of that input); grids with N == dim markers and 2-element rods are counted and required; every third full
+interaction runs on a box with y (and z) extent > x extent.  Not added: a sibling interaction with another dx (each new
+(dx, N) pair costs ~25 s of numba compilation in 3-D; C06/C07/C10 own that dimension).
+
 Observed sign convention (matches the property text): ``lag_grid_forcing_field`` F_m is the force ON THE FLUID; it is
 spread to the Eulerian forcing field (sum_c f_c dx^d = sum_m F_m) and the body receives -F_m.
 
@@ -87,6 +93,12 @@ REQUIRE = {
     "interactions": 10,
     "apply_forces_checks": 8,
     "grid_integral_checks": 10,
+    "transfers_keyword_arguments": 1000,
+    "transfers_positional_arguments": 1000,
+    "float32_marker_force_transfers": 500,
+    "grids_with_N_equal_dim": 3,
+    "rods_with_2_elements": 5,
+    "interactions_on_tall_grid": 10,
 }
 K = 64.0
 EPS = float(np.finfo(np.float64).eps)
@@ -104,8 +116,10 @@ def shards(tier, seed):
 
 
 # ------------------------------------------------------------------------------------------------
-def _check_wrench(rec, case, bf, bt, F, P, fkind, cls_extra, witness_extra=None):
-    """evaluate the balances the property demands for this grid kind"""
+def _check_wrench(rec, case, bf, bt, F, P, fkind, cls_extra, witness_extra=None, eps=None):
+    """evaluate the balances the property demands for this grid kind; ``eps``: unit round-off of the marker-force array
+    when it is not float64 (a float32 interaction hands float32 marker forces to the float64 body arrays)"""
+    EPS = eps if eps is not None else globals()["EPS"]
     kind = case.kind
     r = bodies.wrench_residuals(case, bf, bt, F, P)
     wit = {"meta": case.meta, "fkind": fkind, "F": np.array(F), "P": np.array(P), "body_forces": np.array(bf), "body_torques": np.array(bt),
@@ -145,10 +159,19 @@ def _zeros_out(case):
     return np.zeros((3, nn)), np.zeros((3, ne))
 
 
+_NTRANSFER = [0]
+
+
 def _transfer(rec, case, bf, bt, F):
     F0 = F.copy()
+    _NTRANSFER[0] += 1
     try:
-        case.grid.transfer_forcing_from_grid_to_body(body_flow_forces=bf, body_flow_torques=bt, lag_grid_forcing_field=F)
+        if _NTRANSFER[0] % 2:
+            case.grid.transfer_forcing_from_grid_to_body(body_flow_forces=bf, body_flow_torques=bt, lag_grid_forcing_field=F)
+            rec.count("transfers_keyword_arguments")
+        else:  # documented order (body_flow_forces, body_flow_torques, lag_grid_forcing_field)
+            case.grid.transfer_forcing_from_grid_to_body(bf, bt, F)
+            rec.count("transfers_positional_arguments")
     except Exception as e:  # SophT raising on an admissible input
         rec.violation(f"transfer-raises|{case.kind}", f"{type(e).__name__}: {e} {case.meta}", {"meta": case.meta, "F": F0})
         return False
@@ -200,6 +223,10 @@ def _run_bodies(sh, rec):
         if N == 0:
             rec.case(None)
             continue
+        if N == dim:
+            rec.count("grids_with_N_equal_dim")
+        if case.family == "rod" and body.n_elems == 2:
+            rec.count("rods_with_2_elements")
 
         # (a) gaussian / uniform force fields, then a second transfer into the SAME output arrays
         bf, bt = _zeros_out(case)
@@ -215,6 +242,12 @@ def _run_bodies(sh, rec):
             if rep:
                 rec.count("second_transfer_checks")
             _check_wrench(rec, case, bf, bt, F, P, fkind if rep < 2 else "second-transfer", pc)
+        else:
+            # mixed precision: float32 marker forces (what a real_t=float32 interaction holds) into the float64 body arrays
+            F = np.ascontiguousarray((rng.standard_normal((dim, N)) * 10 ** rng.uniform(-2, 3)).astype(np.float32))
+            if _transfer(rec, case, bf, bt, F):
+                rec.count("float32_marker_force_transfers")
+                _check_wrench(rec, case, bf, bt, F, P, "gauss-float32", pc, eps=float(np.finfo(np.float32).eps))
 
         # (b) one-hot fields: every marker class must reach the body on its own
         picks = {0, N - 1, *(int(i) for i in rng.integers(0, N, size=min(N, 5)))}
@@ -257,7 +290,17 @@ def _run_ix(sh, rec):
     for kind in bodies.ix_kinds(dim, N):
         for rep in range(nrep):
             reset = (rep % 4 == 3)
-            case = bodies.make_interaction_case(rng, kind, N, reset=reset)
+            # every third interaction on a box whose y (and z) extent exceeds the x extent (same dx and N: no new closures)
+            pool = bodies.IX_POOL[dim]
+            saved_other = pool["other"]
+            if rep % 3 == 2:
+                pool["other"] = (44, 48) if dim == 2 else (26, 28)
+            try:
+                case = bodies.make_interaction_case(rng, kind, N, reset=reset)
+            finally:
+                pool["other"] = saved_other
+            if case.meta["shape"][-2] > case.meta["shape"][-1]:
+                rec.count("interactions_on_tall_grid")
             it, f, u, dx = case.it, case.eul_force, case.eul_vel, case.dx
             body = case.body
             meta = case.meta
